@@ -78,6 +78,50 @@ def build_driver(timeout=900):
     return DRIVER
 
 
+SPEC_DRIVER = os.path.join(BUILD, "extract_spec", "driver")
+SPEC_STUBS = """
+(* stubs: the generated model is not part of this build *)
+let step (c : cPU) : cPU = failwith "generated model not available"
+let gPR_GetFlag (_ : gPR) (_ : z) : bool = failwith "gen"
+let gPR_SetFlag (g : gPR) (_ : z) : gPR = failwith "gen"
+let gPR_ResetFlag (g : gPR) (_ : z) : gPR = failwith "gen"
+let register_SetU16 (r : register) (_ : z) : register = failwith "gen"
+let register_U16 (_ : register) : z = failwith "gen"
+"""
+
+
+def build_spec_driver(timeout=900):
+    """the specification alone (no dependency on Gen/): for the failing-input search."""
+    d = os.path.join(BUILD, "extract_spec")
+    os.makedirs(d, exist_ok=True)
+    with common.locked("extract"):
+        ok, out = common.coq_make(["theories/Spec/Exec.vo"], timeout=timeout)
+        if not ok:
+            raise RuntimeError("building Spec failed:\n" + out[-3000:])
+        hsh = hashlib.sha256()
+        for f in ["theories/Spec/Exec.vo", "theories/Spec/Flags.vo", "theories/Spec/Instr.vo", "theories/Prelude/Env.vo",
+                  "extract/ExtractSpec.v", "extract/driver.ml"]:
+            hsh.update(open(os.path.join(COQ, f), "rb").read())
+        stamp = os.path.join(d, "stamp")
+        if os.path.exists(SPEC_DRIVER) and os.path.exists(stamp) and open(stamp).read() == hsh.hexdigest():
+            return SPEC_DRIVER
+        rc, out = sh(["coqc", "-Q", os.path.join(COQ, "theories"), "Z80V", os.path.join(COQ, "extract", "ExtractSpec.v")],
+                     cwd=d, timeout=timeout)
+        if rc:
+            raise RuntimeError("extraction failed:\n" + out[-3000:])
+        open(os.path.join(d, "model.ml"), "a").write(SPEC_STUBS)
+        mli = open(os.path.join(d, "model.mli")).read()
+        os.remove(os.path.join(d, "model.mli"))
+        import shutil
+        shutil.copy(os.path.join(COQ, "extract", "driver.ml"), os.path.join(d, "driver.ml"))
+        rc, out = sh("ocamlfind ocamlopt -O3 -w -a -o driver model.ml driver.ml 2>&1 || "
+                     "ocamlfind ocamlopt -w -a -o driver model.ml driver.ml", cwd=d, timeout=timeout)
+        if rc:
+            raise RuntimeError("ocamlopt failed:\n" + out[-3000:])
+        open(stamp, "w").write(hsh.hexdigest())
+    return SPEC_DRIVER
+
+
 def build_stepper(race=False):
     return common.go_build_overlay("stepper", {"main.go": os.path.join(VERIF, "harness", "stepper", "main.go")},
                                    "cmd/verif_step", race=race)
